@@ -821,23 +821,31 @@ def guards_of(body, bb, _depth=0):
             if X is None or X.k != "phi":
                 continue
             alts = [strip_refs(a_) for a_ in X.a[0]]
-            if len(alts) < 2 or not all(a_.k == "agg" and isinstance(a_.t, dict) and "vidx" in a_.t and not a_.a[1] and a_.t.get("adt") == alts[0].t.get("adt")
-                                       and not str(a_.t.get("adt", "")).startswith(("std::", "core::")) for a_ in alts):
+            # literal variants (with or without a payload) of one crate enum, and at most values of unknown variant (a call's answer)
+            lit_ = [a_ for a_ in alts if a_.k == "agg" and isinstance(a_.t, dict) and "vidx" in a_.t and str(a_.a[0]).startswith("adt:")
+                    and not str(a_.t.get("adt", "")).startswith(("std::", "core::"))]
+            opaque_ = [a_ for a_ in alts if a_ not in lit_]
+            if len(alts) < 2 or not lit_ or any(a_.t.get("adt") != lit_[0].t.get("adt") for a_ in lit_) \
+                    or any(not (a_.k == "call" and isinstance(a_.a[2], int)) for a_ in opaque_):
                 continue
             allv = tuple(v for v, _ in t["targets"])
             pols = bool_switch_polarity(body, s) if t["discr_ty"] == "bool" else {}
             for (node, vals, tgt) in edges:
                 if cmp_k is None:
-                    sat = [a_ for a_ in alts if (a_.t["vidx"] in vals if vals != "otherwise" else a_.t["vidx"] not in allv)]
+                    sat = [a_ for a_ in lit_ if (a_.t["vidx"] in vals if vals != "otherwise" else a_.t["vidx"] not in allv)]
                 else:
                     pol = pols.get(node)
                     if pol is None:
                         continue
                     # bool_switch_polarity already looks through the negations of the operand
-                    sat = [a_ for a_ in alts if (a_.t["vidx"] == cmp_k) == (pol == cmp_eq)]
+                    sat = [a_ for a_ in lit_ if (a_.t["vidx"] == cmp_k) == (pol == cmp_eq)]
+                sat = sat + opaque_          # a value of unknown variant may take any edge
                 if len(sat) != 1:
                     continue
-                where = [i_ for i_ in body.rblocks for st_ in body.blocks[i_]["stmts"] if st_["k"] == "assign" and st_["rv"] is sat[0].t]
+                if sat[0] in opaque_:
+                    where = [sat[0].a[2]] if sat[0].a[2] in body.rblocks else []
+                else:
+                    where = [i_ for i_ in body.rblocks for st_ in body.blocks[i_]["stmts"] if st_["k"] == "assign" and st_["rv"] is sat[0].t]
                 if len(where) != 1 or where[0] == s:
                     continue
                 for g in guards_of(body, where[0], _depth + 1):
